@@ -383,6 +383,13 @@ func DerivesFrom(v ssa.Value, origin func(ssa.Value) bool, pure map[string]bool)
 					return true
 				}
 			}
+		case *ssa.Alloc:
+			// a spilled parameter / local: whatever was stored into the whole cell
+			for _, u := range Uses(x) {
+				if st, ok := u.(*ssa.Store); ok && st.Addr == ssa.Value(x) && rec(st.Val) {
+					return true
+				}
+			}
 		case *ssa.Slice:
 			return rec(x.X)
 		case *ssa.Convert:
